@@ -40,6 +40,8 @@ instance : HasHi (List (Bytes × Val)) := ⟨fun k vs => ∀ kv ∈ vs, kv.2.hi 
 instance : HasHi (Bytes × Val) := ⟨fun k kv => kv.2.hi k⟩
 instance : HasHi (Option Val) := ⟨fun k o => ∀ v, o = some v → v.hi k⟩
 instance : HasHi Heap := ⟨fun k h => HeapHi k h ∧ k ≤ h.length⟩
+instance : HasHi Tree := ⟨fun _ _ => True⟩
+instance : HasHi (List Tree) := ⟨fun _ _ => True⟩
 
 /-- from a heap whose data does not refer to the plan, `m` leaves the plan's cells as they are, keeps
 the data free of references to the plan, only grows the heap, and returns a result free of them -/
@@ -924,6 +926,220 @@ theorem fnPred_safe (p : Val → Bool) (e : Arg → M Val) (args : List Arg) (he
     safe
   | _ :: _ :: _ => simp only [fnPred]; safe
 
+
+/-! ### text, conversion and list functions -/
+
+theorem wantLoop_safe (e : Arg → M Val) :
+    ∀ (args : List Arg) (ws : List Want) (acc : List Tree), (∀ a ∈ args, Safe k (e a)) → Safe k (wantLoop e args ws acc)
+  | [], _, _, _ => by simp only [wantLoop]; safe
+  | _ :: _, [], _, _ => by simp only [wantLoop]; safe
+  | a :: r, w :: ws, acc, he => by
+    have h1 := he a (List.mem_cons_self ..)
+    have ih := fun acc' => wantLoop_safe e r ws acc' (mem_tail he)
+    simp only [wantLoop]
+    safe
+    all_goals exact ih _
+
+theorem toVal_hi (t : Tree) : (Tree.toVal t).hi k := by cases t <;> simp [Tree.toVal, Val.hi]
+
+theorem retTree_safe (t : Tree) : Safe k (retTree t) := by
+  cases t with
+  | arr xs =>
+    simp only [retTree]
+    apply Safe.bind (Safe.alloc (show Cell.hi k (Cell.arr (xs.map Tree.toVal)) from by
+      intro v hv
+      obtain ⟨t, _, rfl⟩ := List.mem_map.mp hv
+      exact toVal_hi t))
+    intro c hc
+    exact Safe.pure (show Val.hi k (Val.aref c) from hc)
+  | null => exact Safe.pure (toVal_hi _)
+  | bool b => exact Safe.pure (toVal_hi _)
+  | int i => exact Safe.pure (toVal_hi _)
+  | flt f => exact Safe.pure (toVal_hi _)
+  | str x => exact Safe.pure (toVal_hi _)
+  | obj kvs => exact Safe.pure (toVal_hi _)
+
+theorem fnScalar_safe (g : ScalarFn) (e : Arg → M Val) (args : List Arg) (he : ∀ a ∈ args, Safe k (e a)) :
+    Safe k (fnScalar g e args) := by
+  have hw := wantLoop_safe e _ (g.wants args.length) [] (swapArgs_mem (b := g.swap) he)
+  unfold fnScalar
+  split
+  · exact Safe.stop _
+  · apply Safe.bind hw
+    intro acc _
+    apply Safe.bind (Safe.liftE (fun _ _ => trivial))
+    intro t _
+    exact retTree_safe t
+
+theorem fnReverse_safe (e : Arg → M Val) (args : List Arg) (he : ∀ a ∈ args, Safe k (e a)) : Safe k (fnReverse e args) := by
+  match args with
+  | [] => simp only [fnReverse]; safe
+  | [a] =>
+    simp only [fnReverse]
+    apply Safe.bind (he a (by simp))
+    intro v hv
+    cases v <;> try exact Safe.stop _
+    rename_i c
+    simp only
+    apply Safe.bind Safe.getHeap
+    intro h hh
+    apply Safe.bind (Safe.alloc (show Cell.hi k (Cell.arr (h.arrAt c).reverse) from by
+      intro v hv'
+      exact arrAt_hi hh.1 hv v (by simpa using hv')))
+    intro c' hc'
+    exact Safe.pure (show Val.hi k (Val.aref c') from hc')
+  | _ :: _ :: _ => simp only [fnReverse]; safe
+
+theorem fnAppend_safe (e : Arg → M Val) (args : List Arg) (he : ∀ a ∈ args, Safe k (e a)) : Safe k (fnAppend e args) := by
+  match args with
+  | [] => simp only [fnAppend]; safe
+  | [_] => simp only [fnAppend]; safe
+  | [a, b] =>
+    simp only [fnAppend]
+    apply Safe.bind (he a (by simp))
+    intro v hv
+    cases v <;> try exact Safe.stop _
+    rename_i c
+    simp only
+    apply Safe.bind (he b (by simp))
+    intro w hw
+    apply Safe.bind Safe.getHeap
+    intro h hh
+    apply Safe.bind (Safe.alloc (show Cell.hi k (Cell.arr (h.arrAt c ++ [w])) from by
+      intro x hx
+      rcases List.mem_append.mp hx with h1 | h1
+      · exact arrAt_hi hh.1 hv x h1
+      · simp at h1; subst h1; exact hw))
+    intro c' hc'
+    exact Safe.pure (show Val.hi k (Val.aref c') from hc')
+  | _ :: _ :: _ :: _ => simp only [fnAppend]; safe
+
+theorem includeLoop_hi (v1 : Val) : ∀ (xs : List Val) (r : Val), includeLoop v1 xs = .ok r → r.hi k
+  | [], r, h => by simp [includeLoop] at h; subst h; trivial
+  | m :: rest, r, h => by
+    simp only [includeLoop] at h
+    split at h
+    · cases h
+    · simp at h; subst h; trivial
+    · exact includeLoop_hi v1 rest r h
+
+theorem fnInclude_safe (e : Arg → M Val) (args : List Arg) (he : ∀ a ∈ args, Safe k (e a)) : Safe k (fnInclude e args) := by
+  match args with
+  | [] => simp only [fnInclude]; safe
+  | [_] => simp only [fnInclude]; safe
+  | [a, b] =>
+    simp only [fnInclude]
+    apply Safe.bind (he b (by simp))
+    intro v1 _
+    apply Safe.bind (he a (by simp))
+    intro v _
+    cases v <;> try exact Safe.stop _
+    · cases v1 <;> first | exact Safe.stop _ | exact Safe.pure trivial
+    · rename_i c
+      simp only
+      apply Safe.bind Safe.getHeap
+      intro h _
+      exact Safe.liftE (fun r hr => includeLoop_hi v1 _ r hr)
+  | _ :: _ :: _ :: _ => simp only [fnInclude]; safe
+
+theorem sortInsert_mem (x : Option Val × Val) : ∀ (pre l : List (Option Val × Val)), sortInsert x pre = .ok l →
+    ∀ y ∈ l, y = x ∨ y ∈ pre
+  | [], l, h, y, hy => by simp [sortInsert] at h; subst h; simp at hy; exact Or.inl hy
+  | p :: r, l, h, y, hy => by
+    simp only [sortInsert] at h
+    split at h
+    · cases h
+    · cases hr : sortInsert x r with
+      | error e => simp [hr] at h
+      | ok l' =>
+        simp [hr] at h
+        subst h
+        rcases List.mem_cons.mp hy with h1 | h1
+        · exact Or.inr (by simp [h1])
+        · rcases sortInsert_mem x r l' hr y h1 with h2 | h2
+          · exact Or.inl h2
+          · exact Or.inr (List.mem_cons_of_mem _ h2)
+    · simp at h; subst h
+      rcases List.mem_cons.mp hy with h1 | h1
+      · exact Or.inl h1
+      · exact Or.inr h1
+
+theorem sortRun_mem : ∀ (xs pre l : List (Option Val × Val)), sortRun xs pre = .ok l → ∀ y ∈ l, y ∈ xs ∨ y ∈ pre
+  | [], pre, l, h, y, hy => by simp [sortRun] at h; subst h; exact Or.inr hy
+  | x :: r, pre, l, h, y, hy => by
+    simp only [sortRun] at h
+    cases hi : sortInsert x pre with
+    | error e => simp [hi] at h
+    | ok pre' =>
+      simp only [hi] at h
+      rcases sortRun_mem r pre' l h y hy with h1 | h1
+      · exact Or.inl (List.mem_cons_of_mem _ h1)
+      · rcases sortInsert_mem x pre pre' hi y h1 with h2 | h2
+        · exact Or.inl (by simp [h2])
+        · exact Or.inr h2
+
+theorem sortKeys_mem (env : Env) (h : Heap) (fs : List Frag) : ∀ (xs : List Val) (ks : List (Option Val × Val)),
+    sortKeys env h fs xs = .ok ks → ∀ p ∈ ks, p.2 ∈ xs
+  | [], ks, hk, p, hp => by simp [sortKeys] at hk; subst hk; simp at hp
+  | x :: r, ks, hk, p, hp => by
+    simp only [sortKeys] at hk
+    cases hf : pathFirst env h x fs with
+    | error e => simp [hf] at hk
+    | ok kx =>
+      simp only [hf] at hk
+      cases hr : sortKeys env h fs r with
+      | error e => simp [hr] at hk
+      | ok l =>
+        simp [hr] at hk
+        subst hk
+        rcases List.mem_cons.mp hp with h1 | h1
+        · subst h1; simp
+        · exact List.mem_cons_of_mem _ (sortKeys_mem env h fs r l hr p h1)
+
+/-- what `sort` returns are the elements it was given -/
+theorem sortList_mem (env : Env) (h : Heap) (fs : List Frag) (xs r : List Val) (hs : sortList env h fs xs = .ok r) :
+    ∀ v ∈ r, v ∈ xs := by
+  unfold sortList at hs
+  split at hs
+  · cases hs
+  · cases hk : sortKeys env h fs xs with
+    | error e => simp [hk] at hs
+    | ok ks =>
+      simp only [hk] at hs
+      cases hr : sortRun ks [] with
+      | error e => simp [hr] at hs
+      | ok l =>
+        simp [hr] at hs
+        subst hs
+        intro v hv
+        simp only [List.mem_reverse, List.mem_map] at hv
+        obtain ⟨p, hp, rfl⟩ := hv
+        rcases sortRun_mem ks [] l hr p hp with h1 | h1
+        · exact sortKeys_mem env h fs xs ks hk p h1
+        · simp at h1
+
+theorem fnSort_safe (env : Env) (e : Arg → M Val) (args : List Arg) (he : ∀ a ∈ args, Safe k (e a)) : Safe k (fnSort env e args) := by
+  match args with
+  | [] => simp only [fnSort]; safe
+  | [_] => simp only [fnSort]; safe
+  | [a, b] =>
+    simp only [fnSort]
+    apply Safe.bind (he a (by simp))
+    intro v hv
+    cases v <;> try exact Safe.stop _
+    rename_i c
+    cases b <;> try exact Safe.stop _
+    rename_i p
+    simp only
+    apply Safe.bind Safe.getHeap
+    intro h hh
+    apply Safe.bind (Safe.liftE (α := List Val) (fun r hr v hv' => arrAt_hi hh.1 hv v (sortList_mem env h p.frags _ r hr v hv')))
+    intro r hr
+    apply Safe.bind (Safe.alloc (show Cell.hi k (Cell.arr r) from hr))
+    intro c' hc'
+    exact Safe.pure (show Val.hi k (Val.aref c') from hc')
+  | _ :: _ :: _ :: _ => simp only [fnSort]; safe
+
 /-- the deviations under which a plan's literals are never handed out by reference: the code since
 312106f (first argument of a comparison evaluated), 52cf3c4 (literals copied) and 9281d31 (list value
 of `cond` copied) -/
@@ -964,6 +1180,11 @@ theorem evalFn_safe (dev : Dev) (hd : dev.copies) (ev : Arg → Val → M Val) (
     case nth => exact fnNth_safe _ _ he
     case size => exact fnSize_safe _ _ he
     case pred p => exact fnPred_safe _ _ _ he
+    case scalar g => exact fnScalar_safe _ _ _ he
+    case reverse => exact fnReverse_safe _ _ he
+    case append => exact fnAppend_safe _ _ he
+    case incl => exact fnInclude_safe _ _ he
+    case sort => exact fnSort_safe _ _ _ he
 
 theorem eval_safe (dev : Dev) (hd : dev.copies) (root : Val) (hroot : root.hi k) :
     ∀ (n : Nat) (a : Arg) (at_ : Val), at_.hi k → Safe k (eval ⟨dev, none⟩ root n a at_)
